@@ -670,6 +670,140 @@ def ch_history(ctx, env) -> Channel:
     return ch
 
 
+# ---------------------------------------------------------------- init segments through the manifest
+
+def via_manifest_selections() -> list[str]:
+    """selections of 1, 2 and all 3 systems, in every order, with EQUAL and with DIFFERING location
+    sets: what a manifest is asked with and has to hand on to its init URLs"""
+    out = []
+    locsets = [None, ["moov"], ["cenc"], ["pro"], ["cenc", "moov"], ["moov", "pro"]]
+    for n in (1, 2, 3):
+        for systems in itertools.permutations(lib.SYSTEMS, n):
+            # equal location sets
+            for locs in (None, ["moov"], ["cenc"]):
+                out.append(lib.selection_string([(s_, locs) for s_ in systems]))
+            if n == 1:
+                continue
+            # differing location sets: rotate three assignments over the systems
+            for shift in range(3):
+                out.append(lib.selection_string([(s_, locsets[(i * 2 + shift + 1) % len(locsets)]) for i, s_ in enumerate(systems)]))
+    out += ["all", "all-moov", "all-cenc", "all-cenc-pro", "playready-cenc,clearkey-moov,marlin",
+            "clearkey-moov,playready-cenc,marlin-cenc"]
+    seen, uniq = set(), []
+    for v in out:
+        if v not in seen:
+            seen.add(v)
+            uniq.append(v)
+    return uniq
+
+
+def via_manifest_cases(env, rng) -> list[dict]:
+    sels = via_manifest_selections()
+    cases = []
+    combos = [("dash", "bbb", "hand_made.mpd", "vod"), ("dash", "mk", "hand_made.mpd", "live"),
+              ("dash", "bbb", "manifest_e.mpd", "live"), ("mps", "bbb", "hand_made.mpd", "vod"),
+              ("dash", "m3", "manifest_n.mpd", "vod")]
+    for i, drm in enumerate(sels):
+        route, stream, mf, mode = combos[i % len(combos)]
+        cases.append({"kind": "via_manifest", "route": route, "stream": stream, "manifest": mf, "mode": mode, "drm": drm})
+    return cases
+
+
+def run_via_manifest(env, c, only_rep: str | None = None):
+    """GET the manifest, follow SegmentTemplate@initialization (resolved against the BaseURL chain,
+    query string kept) for every encrypted track it lists and one clear one; judge each served init
+    segment against the selection the MANIFEST was asked with.  -> [(init case, media, response, url)]"""
+    import appboot
+    client = env.app.client()
+    params = {"drm": c["drm"]}
+    if c["route"] == "mps":
+        url = f"/mps/{c['mode']}/{c11_env.MPS_NAME}/{c['manifest']}" + lib.query(params)
+    else:
+        url = f"/dash/{c['mode']}/{c['stream']}/{c['manifest']}" + lib.query(params)
+    with appboot.Clock("2024-05-01T12:00:00Z"):
+        r = client.get(url)
+    if r.status_code != 200:
+        return r.status_code, []
+    media = {m["name"]: m for m in env.media()}
+    out = []
+    try:
+        adps = lib.read_manifest(r.data, "http://localhost" + url)
+    except Exception:
+        return 200, []
+    for adp in adps:
+        for rep_id in adp["rep_ids"]:
+            m = media.get(rep_id)
+            adv = adp["init_urls"].get(rep_id)
+            if m is None or adv is None or (only_rep and rep_id != only_rep):
+                continue
+            if not only_rep and m["stream"] == "lay" and not rep_id.startswith(("lay_trexmehd", "lay_psshend")):
+                continue          # the layout grid has its own channel; two variants ride along here
+            iurl = lib.local_path(adv)
+            ri = client.get(iurl)
+            route = "mps" if iurl.startswith("/mps/") else "dash"
+            ic = {"kind": "init", "route": route, "stream": m["stream"], "name": rep_id, "mode": c["mode"],
+                  "drm": c["drm"], "version": None}
+            out.append((ic, m, ri, iurl))
+    return 200, out
+
+
+def oracle_via_manifest(env, c, only_rep=None) -> list[dict]:
+    st, inits = run_via_manifest(env, c, only_rep or c.get("rep"))
+    fails = []
+    for ic, m, ri, iurl in inits:
+        if ri.status_code >= 500:
+            fails.append({"what": f"the init URL the manifest advertises ({iurl}) answered {ri.status_code}",
+                          "case": dict(c, rep=ic["name"])})
+            continue
+        for f in oracle_init(env, ic, m, ri):
+            fails.append({"what": f"init segment fetched through the URL the manifest advertises ({iurl}): {f['what']}",
+                          "case": dict(c, rep=ic["name"])})
+    return fails
+
+
+def ch_via_manifest(ctx, env) -> Channel:
+    ch = Channel("init_via_manifest", rule=(
+        "manifests requested with selections of 1, 2 and all 3 DRM systems in every order, with equal and with "
+        "differing location sets (+ all, all-<locs>), on /dash and /mps, vod and live, 1/2/3-key streams; the init "
+        "segment of every listed track is fetched through SegmentTemplate@initialization exactly as advertised "
+        "(BaseURL chain, query string kept) and must be what the selection given to the MANIFEST implies: init "
+        "oracle (byte diff against the stored segment, pssh set per system) and the model's prediction for that "
+        "selection (init_handed_on: parse (print sel) selects the same boxes); non-trivial = encrypted track; "
+        "distinct by (manifest url, track)"))
+    rng = ctx.rng("via_manifest")
+    cases = via_manifest_cases(env, rng)
+    if ctx.thorough:
+        cases += [{"kind": "via_manifest", "route": "dash", "stream": rng.choice(["bbb", "mk", "m3", "va", "sd"]),
+                   "manifest": rng.choice(["hand_made.mpd", "manifest_e.mpd", "manifest_h.mpd", "manifest_n.mpd"]),
+                   "mode": rng.choice(["vod", "live"]), "drm": lib.random_mixed_selection(rng)} for _ in range(600)]
+    pending = []
+    for c in cases:
+        st, inits = run_via_manifest(env, c)
+        ch.evaluations += 1
+        ch.count(f"manifest {c['route']} {c['mode']} -> {st}, {len(inits)} init URLs followed")
+        for ic, m, ri, iurl in inits:
+            pending.append((c, ic, m, ri, iurl))
+    out = drive([model_line(env, ic, m) for c, ic, m, ri, iurl in pending], ch)
+    for (c, ic, m, ri, iurl), mo in zip(pending, out):
+        ch.evaluations += 1
+        if m["encrypted"]:
+            ch.nontrivial.add((c["route"], c["stream"], c["manifest"], c["mode"], c["drm"], ic["name"]))
+        if ri.status_code == 200 and mo not in ("driver-error", "err") and mo != ri.data.hex() \
+                and not has_largesize(stored_init(m)):
+            ch.disagreements.append({"case": dict(c, rep=ic["name"]), "init_url": iurl, "model_len": len(mo) // 2,
+                                     "impl_len": len(ri.data)})
+        if ri.status_code >= 500:
+            ch.oracle_failures.append({"what": f"the init URL the manifest advertises ({iurl}) answered {ri.status_code}",
+                                       "case": dict(c, rep=ic["name"])})
+            continue
+        fails = oracle_init(env, ic, m, ri)
+        if fails:
+            ch.oracle_failures.append({"what": f"init segment fetched through the URL the manifest advertises ({iurl}): "
+                                               f"{fails[0]['what']}", "case": dict(c, rep=ic["name"])})
+    ch.sample({"selections": via_manifest_selections()[:6], "n": len(cases)}, limit=1)
+    return ch
+
+
 def channels(ctx):
     env = c11_env.get_env()
     yield ch_history(ctx, env)          # first: its baseline is the fresh application
@@ -708,6 +842,7 @@ def channels(ctx):
     cases = [dict(c) for c in REGRESSION] + list(layout_cases(env)) + cases + mixed_cases(env, rng, ctx.scale(120, 3000))
     evaluate(env, cases, ch)
     yield ch
+    yield ch_via_manifest(ctx, env)
 
     ch3 = Channel("drmsel", rule=(
         "the real option parser DrmSelection.from_string (_drm_selection_from_string) vs the model's parseSelection "
@@ -738,6 +873,24 @@ def channels(ctx):
         f = oracle_drmsel(v, got)
         if f:
             ch3.oracle_failures.append(f[0])
+    # the serialiser: DrmSelection.to_string(from_string(v)) vs the model's printSelection
+    pvals = [v for v in values if v and not v.lower().startswith("none")] + via_manifest_selections()
+    pout = drive([f"drmprint {v.encode().hex()}" for v in pvals], ch3)
+    for v, mo in zip(pvals, pout):
+        ch3.evaluations += 1
+        try:
+            got = DrmSelection.to_string(DrmSelection.from_string(v))
+        except (ValueError, KeyError):
+            got = "err"
+        if mo == "-":
+            mo = ""
+        if mo != "driver-error" and mo != got:
+            ch3.disagreements.append({"case": {"kind": "drmprint", "value": v}, "model": mo, "impl": got})
+        # oracle (property reading): the printed value selects, per system, what the original selected
+        a, b = lib.requested_ex(v), (lib.requested_ex(got) if got != "err" else None)
+        if a is not None and not a[1] and got != "err" and (b is None or b[0] != a[0]):
+            ch3.oracle_failures.append({"what": f"drm={v!r} is handed on as drm={got!r}, which selects {b and b[0]} instead of {a[0]}",
+                                        "case": {"kind": "drmprint", "value": v}})
     yield ch3
 
     ch2 = Channel("boxwalk", rule=(
@@ -824,6 +977,15 @@ def oracle_drmsel(value: str, got: str | None = None) -> list[dict]:
 def search(ctx, disagreements):
     env = c11_env.get_env()
     seeds = [d["case"] for d in disagreements if isinstance(d.get("case"), dict) and d["case"].get("kind") == "init"]
+    for d in disagreements:
+        if isinstance(d.get("case"), dict) and d["case"].get("kind") == "via_manifest":
+            f = oracle_via_manifest(env, d["case"])
+            if f:
+                return f[0]
+    for c in via_manifest_cases(env, rng if "rng" in dir() else ctx.rng("search")):
+        f = oracle_via_manifest(env, c)
+        if f:
+            return f[0]
     rng = ctx.rng("search")
     pool = itertools.chain(seeds, REGRESSION, layout_cases(env), mixed_cases(env, rng, 500), all_cases(env, (None, "1.0", "4.0")))
     if not ctx.thorough:
@@ -840,6 +1002,15 @@ def replay(ctx, payload):
     case = f.get("case")
     if isinstance(case, dict) and case.get("kind") == "history":
         return replay_history(case)
+    if isinstance(case, dict) and case.get("kind") == "via_manifest":
+        fails = oracle_via_manifest(c11_env.get_env(), case)
+        return {"fails": bool(fails), "failures": fails[:3], "case": case}
+    if isinstance(case, dict) and case.get("kind") == "drmprint":
+        from dashlive.server.options.drm_options import DrmSelection
+        got = DrmSelection.to_string(DrmSelection.from_string(case["value"]))
+        a, b = lib.requested_ex(case["value"]), lib.requested_ex(got)
+        bad = a is not None and not a[1] and (b is None or b[0] != a[0])
+        return {"fails": bool(bad), "handed_on_as": got, "case": case}
     if isinstance(case, dict) and case.get("kind") == "drmsel":
         fails = oracle_drmsel(case["value"])
         return {"fails": bool(fails), "failures": fails, "case": case}
